@@ -130,7 +130,7 @@ func c01Progs() map[string]*Prog {
 func c01Units(tier string) []*Unit {
 	var us []*Unit
 	// an included Taskfile with two run-once tasks whose names end in the same segment (shared with C06)
-	us = append(us, c06IncludeUnit(tier))
+	us = append(us, c06IncludeUnit(tier), c01RootRefUnit())
 	progs := c01Progs()
 	for _, name := range sortedProgNames(progs) {
 		pg := progs[name]
@@ -174,4 +174,31 @@ func sortedProgNames(m map[string]*Prog) []string {
 		mm[k] = true
 	}
 	return vlab.SortedSet(mm)
+}
+
+// A dependency written as a root reference (":gen-proto") from an included Taskfile, next to a
+// root wildcard task declared earlier that would also match the name: the listed task itself has
+// finished before the dependent's command starts.
+func c01RootRefUnit() *Unit {
+	pr := func(task string, vp string) string {
+		return "printf '%s\\n' 'P|" + task + "|0|" + vp + "|'"
+	}
+	files := map[string]string{
+		"Taskfile.yml": "version: '3'\nincludes:\n  inc: ./inc.yml\ntasks:\n  'gen-*':\n    cmds:\n      - " + pr("gen-STAR", "{{index .MATCH 0}}") + "\n  gen-proto:\n    aliases: [gp]\n    cmds:\n      - " + pr("gen-proto", "=") + "\n",
+		"inc.yml":      "version: '3'\ntasks:\n  build:\n    deps: [':gen-proto']\n    cmds:\n      - " + pr("inc:build", "@") + "\n  build2:\n    deps: [':gp']\n    cmds:\n      - " + pr("inc:build2", "@") + "\n",
+	}
+	sc := &vlab.Scenario{Name: "root-reference-dep-next-to-matching-wildcard/cinf", Files: files, Calls: []vlab.CallSpec{{Task: "inc:build"}, {Task: "inc:build2"}}}
+	return &Unit{Name: sc.Name, Sc: sc, Bound: 0, Prune: false, Weight: 1, Check: func(x *vlab.Exec) []vlab.Violation {
+		out := generic("C01", x)
+		var order []string
+		for _, e := range vlab.ParseTrace(x.Trace) {
+			if e.K == 'F' && e.Task != "" {
+				order = append(order, e.Task)
+			}
+		}
+		if got := fmt.Sprint(order); got != "[gen-proto inc:build gen-proto inc:build2]" || x.Code != 0 {
+			out = append(out, vlab.V("C01", "dep_not_finished", "always:root_reference", fmt.Sprintf("commands finished in the order %v (status %d %s); expected the listed dep gen-proto before each dependent", order, x.Code, firstN(x.ErrStr, 80))))
+		}
+		return out
+	}}
 }
